@@ -14,7 +14,7 @@
 -/
 import FcProofs.Props.C10
 import FcProofs.Props.C17
-import FcProofs.Lemmas.MeshEqual
+import FcModel.MeshEqual
 namespace Fc.Glue
 open Fc Fc.Spec Fc.C03
 
@@ -30,12 +30,18 @@ def meshEqualB (rel abs : Nat) (a b : Mesh) : Bool := meshEqualWith rel abs a b 
 
 /-! ### the cell stage is reflexive -/
 
+/-- a type that is present is its own partner (local copy of C03's `targetType_of_mem`, so that this
+    file does not depend on the table facts of `Lemmas/MeshEqual.lean`) -/
+theorem targetType_self (sb : List String) (c : String) (h : c ∈ sb) : targetType sb c = some c := by
+  unfold targetType
+  simp [h]
+
 theorem cellLoop_self (A : Mesh) : ∀ l : List String, (∀ c ∈ l, c ∈ A.cellTypes) → cellLoop A A l = .ok true
   | [], _ => rfl
   | ct :: rest, h => by
     have hm : ct ∈ A.cellTypes := h ct (List.mem_cons_self ..)
     unfold cellLoop
-    rw [targetType_of_mem A.cellTypes ct hm]
+    rw [targetType_self A.cellTypes ct hm]
     simp only [ne_eq, not_true_eq_false, if_false, C10_refl_exact]
     exact cellLoop_self A rest (fun c hc => h c (List.mem_cons_of_mem _ hc))
 
